@@ -146,6 +146,9 @@ class WfGen:
             # one file name per step: two `wc` steps whose files both reach the output directory would otherwise collide there, and
             # the name chosen for the second file on a collision is the runner's own business (wc_out-1.txt vs wc_out.txt_2)
             run["stdout"] = run["outputs"]["o"]["outputBinding"]["glob"] = f"wc_out_{st}.txt"
+        if tool == "echo":
+            # same for `echo` steps (stdout-typed output): echo_out-1.txt vs echo_out.txt on a collision in the output directory
+            run["stdout"] = f"echo_out_{st}.txt"
         self.steps[st] = {"run": run, "in": ins, "out": ["o"]}
         self.out(st, "o", sig[1])
 
